@@ -66,6 +66,16 @@ def dec(v):
             return bytes.fromhex(v["__bytes__"])
         if "__array__" in v:
             return array(v["__array__"], v["items"])
+        if "__bytesio__" in v:
+            import io
+            b = io.BytesIO()
+            b.write(bytes.fromhex(v["__bytesio__"]))       # positioned at the end: further writes append
+            return b
+        if "__struct__" in v:
+            import struct
+            return struct.Struct(v["__struct__"])
+        if "__hex__" in v:
+            return v["__hex__"]                            # a hex text is a plain str natively
         if "__dict__" in v:
             return {dec(k): dec(x) for k, x in v["__dict__"]}
         if "__recipe__" in v:
